@@ -19,7 +19,10 @@ func init() {
 		ruleDef{"C15.R2", c15r2},
 		ruleDef{"C15.R3", c15r3},
 		ruleDef{"C15.R4", c15r4},
+		// over HTTP/2 the predicate sees the headers the client sent: the request's header map is built as upstream builds it
+		ruleDef{"C15.R5", func(r *R) { forkSiblingRule(r, "C15.R5", "server.go") }},
 	)
+	wantRefs("C15")
 }
 
 func handlerServeHTTP(r *R) *ssa.Function {
